@@ -30,7 +30,16 @@ VARIANTS = {
     "DT": dict(family="DT", serial=b"9010KDTU000W0000", refuse=[], tcp=True),
     "DT-single": dict(family="DT", serial=b"9010KDSN000W0000", refuse=[]),
 }
-V2 = ("ET-v2", "ET-745", "ET-v2-tcp", "ES-v2")
+# variants used by addr_pair_job only (non-default communication addresses; not part of the all-pairs grid)
+ADDR_VARIANTS = {
+    "ET-v2@21": dict(family="ET", serial=b"9010KETU000W0000", refuse=[], comm_addr=0x21),
+    "ET-v2-tcp@21": dict(family="ET", serial=b"9010KETU000W0000", refuse=[], tcp=True, comm_addr=0x21),
+    "DT@21": dict(family="DT", serial=b"9010KDTU000W0000", refuse=[], comm_addr=0x21),
+    "DT@f7": dict(family="DT", serial=b"9010KDTU000W0000", refuse=[], comm_addr=0xF7),
+    "ET-v2@7f": dict(family="ET", serial=b"9010KETU000W0000", refuse=[], comm_addr=0x7F),
+}
+V2 = ("ET-v2", "ET-745", "ET-v2-tcp", "ES-v2", "ET-v2@21", "ET-v2-tcp@21", "ET-v2@7f")
+ALL_VARIANTS = dict(VARIANTS, **ADDR_VARIANTS)
 GROUP_CONTENT = ("off", "window", "fulltime-charge", "peak", "unset", "garbage", "badpower", "badsoc", "badpower745", "badsoc745")
 # bad*: times, days and the flavour (on/off) byte are fine, only power or SoC is out of range - decoding fails late
 
@@ -51,6 +60,21 @@ def group_bytes(v2: bool, kind: str, salt: int):
         "badpower": bytes.fromhex("0000173b7fffff7f"), "badsoc": bytes.fromhex("0000173b8000ff7f"),
         "badpower745": bytes.fromhex("0000173b7fffff7f"), "badsoc745": bytes.fromhex("0000173b8000ff7f"),
     }[kind]
+
+
+def _poke(sim, op):
+    """The inverter's own registers move on between two calls (battery state, meter counters ...): op = ["poke", block, salt].
+    Only the registers of ONE runtime block change, the others keep their content."""
+    _, block, salt = op
+    if isinstance(sim, siminv.Aa55Sim):
+        for i in range(len(sim.runtime) // 2, len(sim.runtime)):
+            sim.runtime[i] = (sim.runtime[i] + salt + i) & 0xFF
+        return None
+    lo, hi = {"battery": (37000, 37024), "meter": (36000, 36045), "mppt": (35301, 35362), "battery2": (39000, 39022),
+              "dt_meter": (30195, 30210), "running_tail": (35180, 35224)}[block]
+    for a in range(lo, hi):
+        sim.set(a, (sim.get(a) * 3 + salt + a) & 0x7FFF)
+    return None
 
 
 def op_call(inv, op):
@@ -101,7 +125,7 @@ def execute(case, which):
     objs = {}
     for name in which:
         spec = case["objects"][name]
-        cfg = dict(VARIANTS[spec["variant"]])
+        cfg = dict(ALL_VARIANTS[spec["variant"]])
         salt = spec["salt"]
         inv, sim = siminv.build_direct(cfg, default=lambda a, s=salt: (a * 31 + s * 17 + 3) & 0x7FFF)
         if cfg["family"] == "ES":
@@ -137,7 +161,7 @@ def execute(case, which):
         pos[name] += 1
         o = objs[name]
         try:
-            val = run_sync(op_call(o["inv"], op))
+            val = _poke(o["sim"], op) if op[0] == "poke" else run_sync(op_call(o["inv"], op))
             rec = ("ok", snap(val))
             o["values"].append((len(o["results"]), val, rec[1]))
         except Exception as ex:
@@ -151,7 +175,7 @@ def execute(case, which):
             op = case["seq"][name][pos[name]]
             pos[name] += 1
             try:
-                val = run_sync(op_call(o["inv"], op))
+                val = _poke(o["sim"], op) if op[0] == "poke" else run_sync(op_call(o["inv"], op))
                 rec = ("ok", snap(val))
                 o["values"].append((len(o["results"]), val, rec[1]))
             except Exception as ex:
@@ -464,6 +488,65 @@ def refusal_pair_job(job):
     return acc
 
 
+def addr_pair_job(job):
+    """Objects that differ in communication address (and transport) read the same ids / the same generic registers."""
+    part, parts = job
+    acc = Acc()
+    i = 0
+    pairs = (("ET-v2", "ET-v2@21"), ("ET-v2@21", "ET-v2"), ("DT", "DT@21"), ("DT@21", "DT"), ("ET-v2", "DT@f7"), ("DT", "ET-v2@7f"),
+             ("ET-v2@21", "DT@21"), ("ET-v2-tcp", "ET-v2-tcp@21"), ("ET-v2-tcp@21", "ET-v2"))
+    for va, vb in pairs:
+        for style in (0, 1, 2):
+            i += 1
+            if i % parts != part:
+                continue
+            common = [["read_setting", "modbus-40000"], ["read_setting", "grid_export_limit"], ["runtime"], ["read_setting", "modbus-47000"],
+                      ["read_setting", "modbus-35100"], ["read_setting", "time"]]
+            sa, sb = list(common), list(common)
+            if style == 0:
+                merge = ["A"] * len(sa) + ["B"] * len(sb)
+            elif style == 1:
+                merge = [m for pair in zip(["A"] * len(sa), ["B"] * len(sb)) for m in pair]
+            else:
+                merge = ["B", "A", "A", "B", "B", "A", "A", "B", "A", "B", "B", "A"]
+            case = {"objects": {"A": {"variant": va, "salt": i % 97, "groups": ["off", "off", "window", "off"]},
+                                "B": {"variant": vb, "salt": (i * 3) % 89 + 1, "groups": ["window", "window", "off", "peak"]}},
+                    "seq": {"A": sa, "B": sb}, "merge": merge}
+            acc.nontrivial("addr-pair", va, vb, style)
+            _apply(acc, case)
+            if len(acc.samples) < 1:
+                acc.sample(case)
+    return acc
+
+
+def poll_poke_job(job):
+    """One object is polled repeatedly while the registers of one block change between the polls (the other blocks stay
+    byte-identical); the dictionaries returned earlier must keep their content.  The second object polls in between."""
+    part, parts = job
+    acc = Acc()
+    i = 0
+    for va in VARIANTS:
+        fam = VARIANTS[va]["family"]
+        blocks = {"ET": ("battery", "meter", "mppt", "running_tail"), "DT": ("dt_meter",), "ES": ("battery",)}[fam]
+        for vb in ("ET-v2", "DT", "ES-v2"):
+            for block in blocks:
+                for style in (0, 1):
+                    i += 1
+                    if i % parts != part:
+                        continue
+                    sa = [["runtime"], ["poke", block, 7], ["runtime"], ["poke", block, 11], ["runtime"], ["runtime"]]
+                    sb = [["runtime"], ["poke", {"ET": "battery", "DT": "dt_meter", "ES": "battery"}[VARIANTS[vb]["family"]], 5], ["runtime"]]
+                    merge = (["A"] * len(sa) + ["B"] * len(sb)) if style == 0 else ["A", "B", "A", "A", "B", "A", "B", "A", "A"]
+                    case = {"objects": {"A": {"variant": va, "salt": i % 97, "groups": ["off", "off", "window", "off"]},
+                                        "B": {"variant": vb, "salt": (i * 3) % 89 + 1, "groups": ["window", "window", "off", "peak"]}},
+                            "seq": {"A": sa, "B": sb}, "merge": merge}
+                    acc.nontrivial("poll-poke", va, vb, block, style)
+                    _apply(acc, case)
+                    if len(acc.samples) < 1:
+                        acc.sample(case)
+    return acc
+
+
 def hyp_job(job):
     seed, n = job
     from hypothesis import strategies as st
@@ -474,11 +557,13 @@ def hyp_job(job):
     def op_strategy(variant):
         fam = VARIANTS[variant]["family"]
         if fam == "DT":
-            return st.one_of(st.just(["runtime"]), st.just(["read_setting", "grid_export_limit"]), st.just(["read_setting", "time"]),
+            return st.one_of(st.just(["runtime"]), st.just(["read_setting", "grid_export_limit"]), st.just(["read_setting", "time"]), st.just(["runtime"]),
+                             st.tuples(st.just("poke"), st.just("dt_meter"), st.integers(1, 50)).map(list),
                              st.tuples(st.just("write_setting"), st.just("grid_export_limit"), st.integers(0, 100)).map(list))
         plain = ["work_mode", "grid_export_limit", "battery_discharge_depth"] if fam == "ET" else ["work_mode", "grid_export_limit", "dod"]
         return st.one_of(
-            st.just(["runtime"]), st.just(["settings_data"]), st.just(["get_mode"]),
+            st.just(["runtime"]), st.just(["settings_data"]), st.just(["get_mode"]), st.just(["runtime"]),
+            st.tuples(st.just("poke"), st.sampled_from(("battery", "meter", "mppt", "running_tail") if fam == "ET" else ("battery",)), st.integers(1, 50)).map(list),
             st.tuples(st.just("read_setting"), st.sampled_from(eco_ids + plain)).map(list),
             st.tuples(st.just("set_mode"), st.sampled_from((0, 1, 2, 3, 98, 99, 98, 99)), st.integers(1, 100), st.integers(0, 100)).map(list),
             st.tuples(st.just("write_setting"), st.sampled_from(eco_ids[4:]), st.sampled_from((0, -1, 1))).map(list),
@@ -508,6 +593,8 @@ def hyp_job(job):
 def run(ctx):
     ctx.shard(grid_job, [(p, 16, ctx.quick) for p in range(16)], "all ordered variant pairs x group-1 contents x 5 sequence styles, alternating merges (3 fresh library imports per case)")
     ctx.shard(platform_pair_job, [(p, 16) for p in range(16)], "cross-platform pairs (x1 / x10 eco encodings): all group-1 content combinations, reader vs emulated-mode writer")
+    ctx.shard(addr_pair_job, [(p, 16) for p in range(16)], "pairs that differ in communication address / transport reading the same ids and generic registers")
+    ctx.shard(poll_poke_job, [(p, 16) for p in range(16)], "repeated polls of one object while one register block changes between the polls (earlier results must keep their content)")
     ctx.shard(refusal_pair_job, [(p, 16) for p in range(16)], "same-class pairs where only A's inverter refuses some setting registers (reads of the same ids on both)")
     ctx.shard(e2e_job, [(p, 16) for p in range(16)], "end-to-end: both objects driven by concurrent tasks on one virtual loop (overlapping requests, per-peer latency)")
     n = ctx.pick(160, 8000)
